@@ -599,10 +599,18 @@ package rosmar
 // ---------------------------------------------------------------------------------------------------------------
 // collection+xattrs.go: the xattr writers
 
+// Macro expansion: a macro is applied to the xattr being written only if the first component of its path is exactly
+// that xattr's name, it is applied below that component (path[1:]) of this xattr's own value, and nothing else is edited.
+//@ fn (*event).macroExpand
+//@   modular in=expandXattrMacros
 //@ fn (*event).expandXattrMacros
 //@   modular
-//@   flag trusted=json-tree-edit
 //@   nullable mutateOpts
+//@   loop 1 invariant [C07:macros.loop] true
+//@   loop 1 body [C07:macros.only-the-addressed-xattr] iter("call:upsertSubdocValue") >= 1 ==> iter("call:upsertSubdocValue") == 1 && callret("parseSubdocPath", 0)[0] == xattrKey
+//@   loop 1 body [C07:macros.edits-this-xattr-below-its-name] iter("call:upsertSubdocValue") == 1 ==> mapid(callarg("upsertSubdocValue", 0)) == mapid(xattr) && len(callarg("upsertSubdocValue", 1)) == len(callret("parseSubdocPath", 0)) - 1 && callarg("upsertSubdocValue", 1)[0] == callret("parseSubdocPath", 0)[1] && callarg("upsertSubdocValue", 2) == callret("event.macroExpand", 0)
+//@   ensures [C07:macros.none-without-options] mutateOpts == nil ==> result == nil && count("call:upsertSubdocValue") == 0
+//@   ensures [C07:macros.no-sql] any: count("sql") == 0
 //@
 //@ spec pnil(p) = isnull(p.raw) && isnull(p.parsed) && isnull(p.marshaled)
 //@ spec plainJSON(p) = !isnull(p.marshaled) && isnull(p.raw) && isnull(p.parsed)
@@ -808,7 +816,12 @@ package rosmar
 //@   ensures [C18:evalSubdocPath.error-means-nil] result1 != nil ==> isnull(result0)
 //@ fn upsertSubdocValue
 //@   modular
-//@   flag trusted=json-tree-edit
+//@   requires len(path) >= 1
+//@   requires source != nil
+//@   ensures [C07,C18:upsert.walks-to-the-parent] count("call:evalSubdocPath") == 1 && mapid(callarg("evalSubdocPath", 0)) == mapid(source) && len(callarg("evalSubdocPath", 1)) == len(path) - 1
+//@   ensures [C07,C18:upsert.edits-the-addressed-property] result == nil ==> count("mapupdate") + count("mapdelete") == 1 && writtenmap() == mapid(callret("evalSubdocPath", 0)) && writtenkey() == path[len(path) - 1]
+//@   ensures [C07,C18:upsert.sets-or-removes] result == nil ==> (if value != nil then count("mapupdate") == 1 else count("mapdelete") == 1)
+//@   ensures [C07,C18:upsert.error-edits-nothing] result != nil ==> count("mapupdate") + count("mapdelete") == 0
 //@ fn parseSubdocPath
 //@   modular
 //@   ensures result1 == nil ==> len(result0) >= 1
